@@ -80,6 +80,10 @@ func loopTagCompiler(node render.BlockNode) (func(io.Writer, render.Context) err
 
 		iter := makeIterator(val)
 		if iter == nil {
+			// nil and non-iterable values select nothing: render the else branch, if any
+			if len(node.Clauses) == 1 && node.Clauses[0].Name == "else" {
+				return ctx.RenderBlock(w, node.Clauses[0])
+			}
 			return nil
 		}
 
